@@ -333,6 +333,8 @@ pub fn main(twins: &'static [Twin]) {
             "C17" => has("big") || has("nest"),
             // nested spawn macros: inherited thread names `<caller>_join_<i>_join_<j>` (innermost branches log their thread name)
             "C08" => has("nest") && t.tags.contains("spawn"),
+            // caller variables named like `let`-named branches: every user expression keeps its call-site meaning
+            "C12" | "C13" => has("scope"),
             _ => true,
         };
         if !want {
@@ -423,6 +425,7 @@ pub fn main(twins: &'static [Twin]) {
             let nt = match prop.as_str() {
                 "C17" | "C19" | "C08" => true,
                 "C02" => ncalls >= 1,
+                "C12" | "C13" => true,
                 "C11" => ml.iter().filter(|e| e.k == K::Cap).count() >= 1,
                 _ => ncalls >= 1,
             };
@@ -430,7 +433,7 @@ pub fn main(twins: &'static [Twin]) {
                 nontrivial.insert(fnv(format!("{}|{}", t.id, pstr).as_bytes()));
             }
             for tag in t.tags.split(',') {
-                if tag.starts_with("op:") || tag.starts_with("w:") || tag.starts_with("sp:") || tag.starts_with("big:") || tag.starts_with("wide:") || tag.starts_with("bounds:") || tag.starts_with("nest:") || tag.starts_with("pair:") || tag.starts_with("triple:") || tag == "shadowed" {
+                if tag.starts_with("op:") || tag.starts_with("w:") || tag.starts_with("sp:") || tag.starts_with("big:") || tag.starts_with("wide:") || tag.starts_with("bounds:") || tag.starts_with("nest:") || tag.starts_with("pair:") || tag.starts_with("triple:") || tag.starts_with("scope:") || tag == "shadowed" {
                     *cover.entry(tag.to_string()).or_insert(0) += 1;
                 }
             }
